@@ -69,6 +69,7 @@ structure InstCfg where
   hasHealth : Bool
   connMon : Bool
   storeTTL : Nat
+  callbacks : Bool := true    -- OnPromote / OnDemote registered
   deriving Repr, DecidableEq, Inhabited
 
 inductive ApiKind
